@@ -458,7 +458,11 @@ def getitem(I, base, idx, lineno=None):
         if idx is Ellipsis or idx == ():
             return base
         raise Unsupported(f"subscript of a generic element by {idx!r} (line {lineno})")
+    if hasattr(base, 'pv_getitem'):
+        return base.pv_getitem(idx)
     if isinstance(base, LocIndexer):
+        if isinstance(idx, SV) and idx.is_bool:
+            return getitem(I, base.rec, idx, lineno)
         mask, col = idx
         if isinstance(mask, SV) and mask.is_bool and isinstance(col, str):
             return getitem(I, getitem(I, base.rec, col, lineno), mask, lineno)
@@ -1756,5 +1760,9 @@ def make_libs(I):
                                            'catch_warnings': Builtin('cw', lambda *a, **k: Opaque('ctx')),
                                            'simplefilter': Builtin('sf', lambda *a, **k: None)}),
             'cython': LibNS('cython', {}),
+            'operator': LibNS('operator', {
+                'ge': Builtin('ge', lambda a, b: compare(I, ast.GtE, a, b)), 'gt': Builtin('gt', lambda a, b: compare(I, ast.Gt, a, b)),
+                'le': Builtin('le', lambda a, b: compare(I, ast.LtE, a, b)), 'lt': Builtin('lt', lambda a, b: compare(I, ast.Lt, a, b)),
+                'eq': Builtin('eq', lambda a, b: compare(I, ast.Eq, a, b))}),
             }
     return libs
